@@ -162,11 +162,30 @@ def persistence_rule(ctx, rid):
     gs = build_cfg(sy.node)
     ctx.touch(sy, gs)
     lfc = [(n, c) for n, c, nm in all_calls(ctx, sy, gs) if nm == CROP + ".Crop.load_function"]
-    fa = [n for n in gs.nodes if n.kind == "stmt" and norm(n.ast) == "self.farmer = farmer"]
-    if lfc and fa and gs.can_reach(fa[0].id, lfc[0][0].id):
+    fa = [n for n in gs.nodes if n.kind == "stmt" and isinstance(n.ast, ast.Assign) and norm(n.ast.targets[0]) == "self.farmer"]
+
+    def _from_disk(e, depth=0):
+        t = norm(e)
+        if "from_pickle(" in t or "parse_fn_farmer(" in t:
+            return True
+        if depth < 3:
+            for nm in names_in(e):
+                for _, v in assignments_to(sy, nm, gs):
+                    if v is not None and _from_disk(v, depth + 1):
+                        return True
+                # tuple targets: `fn, farmer = parse_fn_farmer(None, farmer)`
+                for n_ in gs.nodes:
+                    if n_.kind == "stmt" and isinstance(n_.ast, ast.Assign) and isinstance(n_.ast.targets[0], ast.Tuple) and nm in names_in(n_.ast.targets[0]) and ("parse_fn_farmer(" in norm(n_.ast.value) or "from_pickle(" in norm(n_.ast.value)):
+                        return True
+        return False
+    if lfc and fa and all(_from_disk(n.ast.value) for n in fa) and gs.can_reach(fa[0].id, lfc[0][0].id):
         rr.ok("_sync_info_from_disk restores the farmer, then loads the function when none is set")
-    else:
+    elif not lfc or not fa or not gs.can_reach(fa[0].id, lfc[0][0].id):
         rr.bad(ctx.finding(rid, sy, sy.node, "_sync_info_from_disk no longer restores the farmer before loading the function", construct="sync-farmer"), "sync farmer")
+    elif any(isinstance(n.ast.value, ast.Constant) for n in fa):
+        rr.bad(ctx.finding(rid, sy, fa[0].ast, "_sync_info_from_disk sets the farmer to a constant instead of the one read from disk", construct="sync-farmer"), "sync farmer")
+    else:
+        raise AnalysisError("idiom changed: the farmer restored by _sync_info_from_disk is `%s`" % norm(fa[0].ast.value))
     # the function file is rewritten on every sow when save_fn (re-sowing with a tweaked function is documented)
     pr = crop.methods["prepare"]
     gp = build_cfg(pr.node)
